@@ -110,6 +110,9 @@ Ltac spec_cbv_in H :=
      m2list clist v0 v1 v2 v3 v4nth v4list v4add v4scale Nat.eqb
      List.map List.flat_map List.app] in H.
 
+(* Stokes vector of P^2 = 2 rho for the polarizer P = phiH(q0,q1,q2,q3) *)
+Definition Smean (q0 q1 q2 q3 : R) : V4 := mkV4 (q0*q0 + q1*q1 + q2*q2 + q3*q3) (2*q0*q1) (2*q0*q2) (2*q0*q3).
+
 (* ---- Minkowski forms ---- *)
 Definition eta (i j : nat) : R :=
   if Nat.eqb i j then (if Nat.eqb i 0 then 1 else -1) else 0.
